@@ -6,15 +6,15 @@ From Sodium Require Import Engine.
 
 
 (* ---------------- safety half of C03 for the repaired algorithm ---------------- *)
-Lemma get_set_same gr n x : n < length gr -> get (set gr n x) n = x.
+Lemma get_set_same {Val} (gr : graph Val) n x : n < length gr -> get (set gr n x) n = x.
 Proof. unfold get. revert n; induction gr as [|y t IH]; intros [|k] H; simpl in *; try lia; auto. apply IH; lia. Qed.
-Lemma get_set_other gr n m x : n <> m -> get (set gr n x) m = get gr m.
+Lemma get_set_other {Val} (gr : graph Val) n m x : n <> m -> get (set gr n x) m = get gr m.
 Proof. unfold get. revert n m; induction gr as [|y t IH]; intros [|k] [|j] H; simpl; auto; try lia. Qed.
-Lemma set_length gr n x : length (set gr n x) = length gr.
+Lemma set_length {Val} (gr : graph Val) n x : length (set gr n x) = length gr.
 Proof. revert n; induction gr as [|y t IH]; intros [|k]; simpl; auto. Qed.
 
 
-Lemma fold_opt_inv {A} (P : st -> Prop) (f : st -> A -> option st) l : forall s0 r,
+Lemma fold_opt_inv {Val A} (P : st Val -> Prop) (f : st Val -> A -> option (st Val)) l : forall s0 r,
   P s0 -> (forall a x s', In x l -> P a -> f a x = Some s' -> P s') ->
   fold_left (fun acc x => match acc with None => None | Some a => f a x end) l (Some s0) = Some r -> P r.
 Proof.
@@ -27,7 +27,7 @@ Proof.
     + exfalso. clear -E. induction l; simpl in *; [discriminate|auto].
 Qed.
 
-Lemma fold_opt_inv2 {A} (P : st -> Prop) (Q : A -> st -> Prop) (f : st -> A -> option st) l : forall s0 r,
+Lemma fold_opt_inv2 {Val A} (P : st Val -> Prop) (Q : A -> st Val -> Prop) (f : st Val -> A -> option (st Val)) l : forall s0 r,
   P s0 ->
   (forall a x s', In x l -> P a -> f a x = Some s' -> P s' /\ Q x s') ->
   (forall a x y s', In x l -> In y l -> P a -> Q x a -> f a y = Some s' -> Q x s') ->
@@ -57,7 +57,8 @@ Proof.
 Qed.
 
 Section Safety.
-  Variable F : rule.
+  Context {Val : Type}.
+  Variable F : rule Val.
   Variables D Dts : nat -> list nat.
   Variable rank : nat -> nat.
   Variable N : nat.
@@ -67,19 +68,19 @@ Section Safety.
   (* every dependency edge is registered in the dependents list of its target *)
   Hypothesis Dts_complete : forall n d, n < N -> In d (D n) -> In n (Dts d).
 
-  Definition shape (gr : graph) :=
+  Definition shape (gr : graph Val) :=
     length gr = N /\ forall n, n < N -> deps (get gr n) = D n /\ dependents (get gr n) = Dts n.
-  Definition pend (gr : graph) (n : nat) := visited (get gr n) = true /\ done (get gr n) = false.
-  Definition clean (gr : graph) (n : nat) := D n <> [] -> fire (get gr n) = None /\ changed (get gr n) = false.
-  Definition cons (gr : graph) (n : nat) :=
+  Definition pend (gr : graph Val) (n : nat) := visited (get gr n) = true /\ done (get gr n) = false.
+  Definition clean (gr : graph Val) (n : nat) := D n <> [] -> fire (get gr n) = None /\ changed (get gr n) = false.
+  Definition cons (gr : graph Val) (n : nat) :=
     D n <> [] ->
     fire (get gr n) = (if existsb (fun d => changed (get gr d)) (D n) then F n (map (fun d => fire (get gr d)) (D n)) else None) /\
     changed (get gr n) = match fire (get gr n) with Some _ => true | None => false end.
-  Definition I (gr : graph) :=
+  Definition I (gr : graph Val) :=
     (forall n, n < N -> done (get gr n) = true ->
         visited (get gr n) = true /\ (forall d, In d (D n) -> done (get gr d) = true) /\ cons gr n) /\
     (forall n, n < N -> done (get gr n) = false -> clean gr n).
-  Definition ext (gr gr' : graph) :=
+  Definition ext (gr gr' : graph Val) :=
     shape gr' /\
     (forall n, n < N -> visited (get gr n) = true -> visited (get gr' n) = true) /\
     (forall n, n < N -> done (get gr n) = true -> get gr' n = get gr n) /\
@@ -103,11 +104,11 @@ Section Safety.
     - intros n Hn Dn. destruct (R1 n Hn Dn) as [A B]. destruct (R2 n Hn Dn) as [A' B']. split; congruence.
   Qed.
 
-  Definition pre (gr : graph) (n : nat) (as_dep : bool) :=
+  Definition pre (gr : graph Val) (n : nat) (as_dep : bool) :=
     if as_dep then forall p, p < N -> pend gr p -> rank n < rank p else forall p, p < N -> ~ pend gr p.
 
   (* changing only the visited/done flags of node n *)
-  Definition reflag (x : node) v d := {| deps := deps x; dependents := dependents x; visited := v; done := d; changed := changed x; fire := fire x |}.
+  Definition reflag (x : node Val) v d := {| deps := deps x; dependents := dependents x; visited := v; done := d; changed := changed x; fire := fire x |}.
   Lemma mark_g s n v d : g (mark s n v d) = set (g s) n (reflag (get (g s) n) v d).
   Proof. reflexivity. Qed.
 
@@ -117,11 +118,11 @@ Section Safety.
     destruct (Nat.eq_dec n m) as [->|Ne]; [rewrite get_set_same by lia; auto | rewrite get_set_other by auto; auto].
   Qed.
 
-  Definition CovAt (s : st) (k : nat) := forall m, In m (Dts k) -> visited (get (g s) m) = true \/ In m (queue s).
+  Definition CovAt (s : st Val) (k : nat) := forall m, In m (Dts k) -> visited (get (g s) m) = true \/ In m (queue s).
   (* nodes that became done and changed between s and s' have all their dependents visited or queued *)
-  Definition NewCov (s s' : st) :=
+  Definition NewCov (s s' : st Val) :=
     forall k, k < N -> done (get (g s') k) = true -> changed (get (g s') k) = true -> done (get (g s) k) = false -> CovAt s' k.
-  Definition Post (s : st) (n : nat) (s' : st) :=
+  Definition Post (s : st Val) (n : nat) (s' : st Val) :=
     I (g s') /\ ext (g s) (g s') /\ visited (get (g s') n) = true /\ (visited (get (g s) n) = false -> done (get (g s') n) = true) /\
     incl (queue s) (queue s') /\ NewCov s s'.
 
@@ -192,9 +193,9 @@ Section Safety.
     (* step B: the dependencies *)
     cbv zeta in E. rewrite Dx in E.
     match type of E with match ?T with _ => _ end = _ => destruct T as [s2|] eqn:EB end; [|discriminate].
-    pose (P := fun a : st => shape (g a) /\ I (g a) /\ ext (g s1) (g a) /\ incl (queue s1) (queue a) /\ NewCov s1 a).
-    pose (Q := fun (d : nat) (a : st) => visited (get (g a) d) = true).
-    pose (fB := fun (a : st) (d : nat) => if visited (get (g a) d) then Some a else update_node F false f a d true).
+    pose (P := fun a : st Val => shape (g a) /\ I (g a) /\ ext (g s1) (g a) /\ incl (queue s1) (queue a) /\ NewCov s1 a).
+    pose (Q := fun (d : nat) (a : st Val) => visited (get (g a) d) = true).
+    pose (fB := fun (a : st Val) (d : nat) => if visited (get (g a) d) then Some a else update_node F false f a d true).
     assert (PreB : forall a d, In d (D n) -> P a -> pre (g a) d true).
     { intros a d Hd (Sa & Ia & (_ & _ & _ & _ & Qa & _ & _) & _) p Hp Pp.
       destruct (P1 p Hp (Qa p Hp Pp)) as [->|Ps]; [apply rank_ok; auto|].
@@ -320,8 +321,8 @@ Section Safety.
       intros _ m Hm. right. simpl. apply in_or_app. right. rewrite G4n. simpl. rewrite Dtn3. exact Hm. }
     assert (Dt4 : dependents (get (g s4) n) = Dts n) by (rewrite G4n; simpl; exact Dtn3).
     rewrite Dt4 in E.
-    pose (PE := fun a : st => shape (g a) /\ I (g a) /\ ext (g s4) (g a) /\ incl (queue s4) (queue a) /\ NewCov s4 a).
-    pose (QE := fun (m : nat) (a : st) => visited (get (g a) m) = true).
+    pose (PE := fun a : st Val => shape (g a) /\ I (g a) /\ ext (g s4) (g a) /\ incl (queue s4) (queue a) /\ NewCov s4 a).
+    pose (QE := fun (m : nat) (a : st Val) => visited (get (g a) m) = true).
     assert (PreE : forall a m, PE a -> pre (g a) m false).
     { intros a m (_ & _ & (_ & _ & _ & _ & Qa & _ & _) & _) p Hp Pp. destruct X04 as (_ & _ & _ & _ & Q04 & _ & _).
       simpl in Pre. eapply Pre; eauto. }
@@ -347,14 +348,14 @@ Section Safety.
   Qed.
 
   (* ---------------- the drain loop: completeness and the fixpoint equation ---------------- *)
-  Definition NoPend (gr : graph) := forall p, p < N -> ~ pend gr p.
-  Definition Cov (s : st) := forall k, k < N -> done (get (g s) k) = true -> changed (get (g s) k) = true -> CovAt s k.
+  Definition NoPend (gr : graph Val) := forall p, p < N -> ~ pend gr p.
+  Definition Cov (s : st Val) := forall k, k < N -> done (get (g s) k) = true -> changed (get (g s) k) = true -> CovAt s k.
   (* a changed node that nobody visited yet is waiting in the queue (true of the sinks that were sent) *)
-  Definition SrcQ (s : st) := forall k, k < N -> changed (get (g s) k) = true -> visited (get (g s) k) = false -> In k (queue s).
-  Definition Good (s : st) := shape (g s) /\ I (g s) /\ NoPend (g s) /\ Cov s /\ SrcQ s.
+  Definition SrcQ (s : st Val) := forall k, k < N -> changed (get (g s) k) = true -> visited (get (g s) k) = false -> In k (queue s).
+  Definition Good (s : st Val) := shape (g s) /\ I (g s) /\ NoPend (g s) /\ Cov s /\ SrcQ s.
 
   (* every derived node satisfies its equation: the propagation reached a fixpoint *)
-  Definition Fixpoint_ok (gr : graph) := forall n, n < N -> cons gr n.
+  Definition Fixpoint_ok (gr : graph Val) := forall n, n < N -> cons gr n.
 
   Lemma good_empty_fix s : Good s -> queue s = [] -> Fixpoint_ok (g s).
   Proof.
@@ -375,7 +376,7 @@ Section Safety.
     rewrite Ex. auto.
   Qed.
 
-  Lemma get_out gr x : length gr <= x -> visited (get gr x) = true.
+  Lemma get_out (gr : graph Val) x : length gr <= x -> visited (get gr x) = true.
   Proof. intros H. unfold get. rewrite nth_overflow; auto. Qed.
 
   Lemma update_node_out_of_range fuel a x b a' :
@@ -395,10 +396,10 @@ Section Safety.
     match type of E with match ?T with _ => _ end = _ => destruct T as [s1|] eqn:EF end; [|discriminate].
     destruct Gd as (S & Inv & NP & C & SQ).
     set (s0 := {| g := g s; queue := []; log := log s |}) in *.
-    pose (P := fun a : st => shape (g a) /\ I (g a) /\ NoPend (g a) /\ ext (g s0) (g a) /\
+    pose (P := fun a : st Val => shape (g a) /\ I (g a) /\ NoPend (g a) /\ ext (g s0) (g a) /\
                 (forall k, k < N -> done (get (g a) k) = true -> changed (get (g a) k) = true ->
                            forall m, In m (Dts k) -> visited (get (g a) m) = true \/ In m (queue a) \/ In m (queue s))).
-    pose (Qv := fun (m : nat) (a : st) => visited (get (g a) m) = true).
+    pose (Qv := fun (m : nat) (a : st Val) => visited (get (g a) m) = true).
     destruct (fold_opt_inv2 P Qv (fun a x => update_node F false fuel a x false) (queue s) s0 s1) as [(S1 & I1 & NP1 & X1 & C1) V1]; auto.
     { split; [|split; [|split; [|split]]]; auto.
       - apply ext_refl; auto.
@@ -437,7 +438,7 @@ Section Safety.
 
   (* two fixpoints over the same sources agree everywhere: the result does not depend on the order
      of the queue, of the dependents lists, or of anything else the walk did *)
-  Lemma fixpoint_unique gr1 gr2 :
+  Lemma fixpoint_unique (gr1 gr2 : graph Val) :
     Fixpoint_ok gr1 -> Fixpoint_ok gr2 ->
     (forall n, n < N -> D n = [] -> fire (get gr1 n) = fire (get gr2 n) /\ changed (get gr1 n) = changed (get gr2 n)) ->
     forall n, n < N -> fire (get gr1 n) = fire (get gr2 n) /\ changed (get gr1 n) = changed (get gr2 n).
@@ -487,12 +488,12 @@ Print Assumptions update_node_safe.
 Print Assumptions drain_order_independent.
 
 (* ---- the D1 witness: s1=0 s2=1 x1=2(s1) x2=3(s2) d=4(x1,x2) n=5(s2,d) ---- *)
-Definition mk ds dts ch fr := {| deps := ds; dependents := dts; visited := false; done := false; changed := ch; fire := fr |}.
-Definition G0 : graph :=
+Definition mk {Val} ds dts ch (fr : option Val) : node Val := {| deps := ds; dependents := dts; visited := false; done := false; changed := ch; fire := fr |}.
+Definition G0 : graph nat :=
   [ mk [] [2] true (Some 1); mk [] [3;5] true (Some 2); mk [0] [4] false None; mk [1] [4] false None;
     mk [2;3] [5] false None; mk [1;4] [] false None ].
 (* rule: sum of the firing inputs, +100 per node to tell them apart *)
-Definition Fsum : rule := fun n ins =>
+Definition Fsum : rule nat := fun n ins =>
   let vs := flat_map (fun o => match o with Some v => [v] | None => [] end) ins in
   match vs with [] => None | _ => Some (100 * n + list_sum vs) end.
 
